@@ -7,7 +7,7 @@ import subprocess
 import tempfile
 
 VERIF = os.path.dirname(os.path.dirname(os.path.abspath(__file__)))
-NEUTRAL_CAP = 12
+NEUTRAL_CAP = 8
 
 
 def _pname(patch):
